@@ -404,6 +404,9 @@ pub fn c33(out: &mut Out, ex: &mut Exec, seed: u64, thorough: bool) {
         a.lea(0, "S"); a.trap(0x22); a.trap(0x25);
         a.label("N"); a.w(len as u16); a.label("S"); a.w(0x21); a.w(0);
         let mut v = base_setup(&format!("{id}"), false, false, &a, &input);
+        // every fourth case: another thread has panicked while holding the keyboard / display buffer guard (a poisoned but
+        // free lock): delivery must be unaffected
+        match id % 8 { 1 => v.push("sim poison kb".into()), 3 => v.push("sim poison ds".into()), 5 => { v.push("sim poison kb".into()); v.push("sim poison ds".into()); } _ => {} }
         let exhaustive_bits: Option<u32> = if len <= 2 && id < 4000 { Some(rng.next() as u32 & 0xFFFF) } else { None };
         let p_lock = rng.below(40) as u64;
         for l in &v { let r = ex.line(l); out.op(l, &r); }
